@@ -344,3 +344,37 @@ def attribute_uninit(mod, case, res, tier):
             n += 1
     if n:
         res.setdefault("events", {})["uninit-counterfactual-attributions"] = n
+
+
+K_SENS_ABS = "sensitivity-ignores-parameter-inside-abstracted-condition"
+
+
+def param_reaches_abstracted_condition(program, param):
+    """the probability of a condition that Polar abstracted as an opaque symbol depends on the parameter: the parameter occurs in the
+    condition itself or in an assignment (parameters of a draw, probabilities, coefficients) of a variable in the dependency closure
+    of the condition's variables"""
+    if program is None or not getattr(program, "abstracted_const_store", {}):
+        return False
+    av = set()
+    for cond in program.abstracted_const_store.values():
+        syms = {str(x) for x in cond.get_free_symbols()}
+        if param in syms:
+            return True
+        av |= syms
+    try:
+        pv = {str(v) for v in program.variables}
+        changed = True
+        while changed:
+            changed = False
+            for a in list(program.initial) + list(program.loop_body):
+                if str(a.variable) in av:
+                    fs = {str(x) for x in a.get_free_symbols()}
+                    if param in fs:
+                        return True
+                    anc = (fs & pv) - av
+                    if anc:
+                        av |= anc
+                        changed = True
+    except Exception:
+        return False
+    return False
